@@ -46,7 +46,7 @@ func (b *c47Blocks) BlockHeightWaiter(h uint64) (<-chan uint64, error) {
 	}
 	return ch, nil
 }
-func (b *c47Blocks) CurrentBlock() (uint64, error) { return b.height, nil }
+func (b *c47Blocks) CurrentBlock() (uint64, error)             { return b.height, nil }
 func (b *c47Blocks) WatchBlocks(context.Context) <-chan uint64 { panic("c47: unused") }
 func (b *c47Blocks) mine() {
 	b.height++
